@@ -9,6 +9,7 @@ Transcribed from
                           marker acts: one tract per need on the need's transition, one de-duplicated
                           enact inserted FIRST in the named frame when an `in frame` clause is present)
   ioflo/base/framing.py   Framer.enterAll / segue / recur, Frame.enter / precur / exit
+                          Framer.checkEnter / Frame.checkEnter (entry needs `let me if …`)
                           (a single framer with a flat list of frames, no auxiliaries)
 
 Time is the store stamp.  The code only ever compares stamps that were copied from `store.stamp`
@@ -208,8 +209,16 @@ inductive Write where
   | chg (share : Nat) (fs : Fields)       -- Share.change (no stamp)
 deriving DecidableEq, Repr
 
+/-- an entry need `let me if [not] field in share` (NeedBoolean, possibly under Nact) -/
+structure Guard where
+  neg : Bool
+  share : Nat
+  field : String
+deriving DecidableEq, Repr
+
 structure FrameSrc where
   name : String
+  guards : List Guard        -- beacts, in order
   enter : List Write
   recur : List Write
   exit : List Write
@@ -236,6 +245,7 @@ deriving DecidableEq, Repr
 
 structure Frame where
   name : String
+  guards : List Guard
   enter : List Write
   recur : List Write
   exit : List Write
@@ -316,7 +326,7 @@ def resolveFrames (names : List String) :
   | i, pl, f :: fs => do
     let (ts, pl) ← resolveTranss names i pl f.trans
     let (fs', pl) ← resolveFrames names (i + 1) pl fs
-    return (⟨f.name, f.enter, f.recur, f.exit, ts⟩ :: fs', pl)
+    return (⟨f.name, f.guards, f.enter, f.recur, f.exit, ts⟩ :: fs', pl)
 
 structure Resolved where
   frames : List Frame
@@ -375,10 +385,33 @@ def evalNeed (w : World) (n : Need) : Bool :=
 /-- `for act in needs: if not act(): return None` -/
 def evalNeeds (w : World) (ns : List Need) : Bool := ns.all (evalNeed w)
 
-/-- first transition of the frame whose needs all hold (`Frame.precur`) -/
-def firstTrans (w : World) : List Trans → Option Trans
+/-- Python truthiness of a field value (`if state[stateField]:`) -/
+def truthy : PyVal → Bool
+  | .none => false
+  | .bool b => b
+  | .int i => i != 0
+  | .flt m _ => m != 0
+  | .str s => s != ""
+
+/-- an entry need: `NeedBoolean.action` (under `Nact` when negated).  The field always exists: the
+need's `_resolve` creates it when missing and nothing removes fields. -/
+def evalGuard (w : World) (g : Guard) : Bool :=
+  let r :=
+    match (w.shares[g.share]?).bind (fun sh => sh.data.lookup g.field) with
+    | some v => truthy v
+    | none => false
+  if g.neg then !r else r
+
+/-- `Framer.checkEnter(enters = [far])` → `Frame.checkEnter`: every entry need of the far frame holds -/
+def enterOk (w : World) (frames : List Frame) (far : Nat) : Bool :=
+  ((frames[far]?.map (·.guards)).getD []).all (evalGuard w)
+
+/-- `Frame.precur` over `Transiter.action`: the first transition whose needs all hold AND whose far
+frame admits entry.  A transition whose needs hold but whose far frame refuses entry returns `None`
+before its tract acts run: nothing changes and the next transition is tried. -/
+def firstTrans (w : World) (frames : List Frame) : List Trans → Option Trans
   | [] => none
-  | t :: ts => if evalNeeds w t.needs then some t else firstTrans w ts
+  | t :: ts => if evalNeeds w t.needs && enterOk w frames t.far then some t else firstTrans w frames ts
 
 def enterActs (r : Resolved) (i : Nat) : List Act :=
   ((r.enacts.getD i []).map (Act.marker false)) ++
@@ -403,7 +436,7 @@ def readerActs (r : Resolved) (first : Bool) (s : RState) : List Act × Nat × B
     match r.frames[s.active]? with
     | none => ([], s.active, false)
     | some near =>
-      match firstTrans s.world near.trans with
+      match firstTrans s.world r.frames near.trans with
       | none => (near.recur.map Act.write, s.active, false)
       | some t =>
         (fireActs r near t ++ ((r.frames[t.far]?.map (·.recur)).getD []).map Act.write, t.far, true)
